@@ -18,6 +18,9 @@ namespace Csproto.Go
 /-- the `error` values the wire primitives return -/
 inductive Err where
   | nil | invalidVarint | unexpectedEOF | overflow
+  /-- any other error value: another package-level sentinel (by name), or a fresh `fmt.Errorf` without `%w` ("errorf").
+      `fmt.Errorf("… %w …", e)` is translated to `e` itself: wrapping keeps the class (`errors.Is`). -/
+  | other (what : String)
 deriving DecidableEq, Repr
 
 /-- outcome of running a statement in state `σ`: fall through with a new state, `return` a value, panic
